@@ -63,15 +63,17 @@ pub fn record(args: &Args) {
 					_ => Value::Object(vec![json_syntax::object::Entry::new("n".into(), v)].into_iter().collect()),
 				});
 			}
-			for (i, s) in strs.iter().enumerate() {
-				vals.push(match (d + i) % 3 {
-					0 => Value::String((*s).into()),
-					1 => Value::Object(vec![json_syntax::object::Entry::new((*s).into(), Value::Null)].into_iter().collect()),
-					_ => Value::Array(vec![Value::String((*s).into()), Value::Null]),
-				});
+			for s in strs.iter() {
+				// as a string, as a key (alone, and after a common first entry), inside an array
+				vals.push(Value::String((*s).into()));
+				vals.push(Value::Object(vec![json_syntax::object::Entry::new((*s).into(), Value::Null)].into_iter().collect()));
+				if s.len() >= 3 {
+					vals.push(Value::Object(vec![json_syntax::object::Entry::new("a".into(), Value::Null), json_syntax::object::Entry::new((*s).into(), Value::Boolean(true))].into_iter().collect()));
+					vals.push(Value::Array(vec![Value::String((*s).into()), Value::Null]));
+				}
 			}
 			rng.shuffle(&mut vals);
-			vals.truncate(size.max(45));
+			vals.truncate(size.max(70));
 		}
 		while vals.len() < size {
 			let base = if d % 2 == 0 { Value::Object(g.object(&mut rng, 1)) } else { g.value(&mut rng, 2) };
